@@ -1,7 +1,883 @@
 import PyxisVerif.Spec.C03
 /-!
 # Helper lemmas about the layout core (`Model/Layout.lean`)
+
+Structure: `specRegs` / `specAll` give the region list of a `TypeSpec` in closed form; `place_spec` /
+`resolve_spec` show that the executable placement loop produces exactly that list (or an error);
+the remaining lemmas establish the properties of the closed form that the alignment block inspects.
 -/
 namespace PyxisVerif.Layout
+open PyxisVerif.C03
+
+/-! ## powers of two -/
+
+theorem isPow2_iff (n : Nat) : isPow2 n = true ↔ ∃ k, n = 2 ^ k := by
+  unfold isPow2
+  constructor
+  · intro h
+    simp only [Bool.and_eq_true, bne_iff_ne, ne_eq, beq_iff_eq] at h
+    exact ⟨n.log2, h.2.symm⟩
+  · rintro ⟨k, rfl⟩
+    simp [Nat.log2_two_pow]
+
+theorem pow2_pos {n : Nat} (h : ∃ k, n = 2 ^ k) : 1 ≤ n := by
+  obtain ⟨k, rfl⟩ := h
+  exact Nat.two_pow_pos k
+
+/-! ## the closed form of the region list -/
+
+/-- what one `push` appends -/
+def reg (s : Nat) (al : Option Nat) (arr : Bool) (src : Option Nat) : List (Placed Nat) :=
+  if s = 0 ∧ arr = true then [] else [⟨s, al, src⟩]
+
+/-- regions produced by the placement loop for fields `fs` numbered from `i`, starting at offset `e` -/
+def specRegs : Nat → Nat → List FieldSpec → List (Placed Nat)
+  | _, _, [] => []
+  | e, i, f :: fs =>
+    reg (fieldOffset e f - e) (some 1) true none ++
+      (reg f.size (some f.align) f.isArray (some (i + 1)) ++
+        specRegs (fieldOffset e f + f.size) (i + 1) fs)
+
+def headRegs (ps : Nat) (t : TypeSpec) : List (Placed Nat) :=
+  if t.vft then [⟨ps, some ps, some 0⟩] else []
+
+def tailRegs (ps : Nat) (t : TypeSpec) : List (Placed Nat) :=
+  reg (totalSize ps t - naturalEnd (start ps t) t.fields) (some 1) true none
+
+def specAll (ps : Nat) (t : TypeSpec) : List (Placed Nat) :=
+  headRegs ps t ++ (specRegs (start ps t) 0 t.fields ++ tailRegs ps t)
+
+/-- the pending fields of `fs` numbered from `i` -/
+def pf (i : Nat) (fs : List FieldSpec) : List (PField Nat) :=
+  (fs.zipIdx i).map fun p => p.1.toPField (p.2 + 1)
+
+theorem pfields_eq (t : TypeSpec) : pfields t = pf 0 t.fields := rfl
+
+theorem pf_cons (i : Nat) (f : FieldSpec) (fs : List FieldSpec) :
+    pf i (f :: fs) = f.toPField (i + 1) :: pf (i + 1) fs := rfl
+
+/-- the crude weight used by `bound` -/
+def wt (fs : List FieldSpec) : Nat := (fs.map fun f => f.addr.getD 0 + f.size).sum
+
+theorem wt_cons (f : FieldSpec) (fs : List FieldSpec) :
+    wt (f :: fs) = f.addr.getD 0 + f.size + wt fs := by
+  simp [wt]
+
+theorem fieldOffset_le (e : Nat) (f : FieldSpec) : fieldOffset e f ≤ e + f.addr.getD 0 := by
+  unfold fieldOffset
+  cases f.addr <;> simp
+
+theorem naturalEnd_le (e : Nat) (fs : List FieldSpec) : naturalEnd e fs ≤ e + wt fs := by
+  induction fs generalizing e with
+  | nil => simp [naturalEnd, wt]
+  | cons f fs ih =>
+    have h1 := ih (fieldOffset e f + f.size)
+    have h2 := fieldOffset_le e f
+    rw [wt_cons]
+    simp only [naturalEnd]
+    omega
+
+/-! ## `push`, `place`, `resolve` compute the closed form -/
+
+theorem push_ok (rs : List (Placed Nat)) (e s : Nat) (al : Option Nat) (arr : Bool) (src : Option Nat)
+    (h : e + s ≤ usizeMax) :
+    push (rs, e) (.ok (some s)) al arr src = .ok (rs ++ reg s al arr src, e + s) := by
+  unfold push reg
+  by_cases c : s = 0 ∧ arr = true
+  · simp [c]
+  · simp [c, h]
+
+theorem sumSizes_append (a b : List (Placed Nat)) : sumSizes (a ++ b) = sumSizes a + sumSizes b := by
+  simp [sumSizes]
+
+theorem sumSizes_reg (s : Nat) (al : Option Nat) (arr : Bool) (src : Option Nat) :
+    sumSizes (reg s al arr src) = s := by
+  unfold reg
+  by_cases c : s = 0 ∧ arr = true
+  · simp [c, sumSizes]
+  · simp [c, sumSizes]
+
+theorem sumSizes_specRegs (e i : Nat) (fs : List FieldSpec) (h : NonOverlap e fs) :
+    sumSizes (specRegs e i fs) + e = naturalEnd e fs := by
+  induction fs generalizing e i with
+  | nil => simp [specRegs, naturalEnd, sumSizes]
+  | cons f fs ih =>
+    obtain ⟨h1, h2⟩ := h
+    have := ih _ (i + 1) h2
+    have hle : e ≤ fieldOffset e f := by
+      unfold fieldOffset
+      cases ha : f.addr with
+      | none => simp
+      | some a => simpa using h1 a ha
+    simp only [specRegs, naturalEnd, sumSizes_append, sumSizes_reg]
+    omega
+
+theorem nonOverlap_le (e : Nat) (f : FieldSpec) (fs : List FieldSpec) (h : NonOverlap e (f :: fs)) :
+    e ≤ fieldOffset e f := by
+  unfold fieldOffset
+  cases ha : f.addr with
+  | none => simp
+  | some a => simpa using h.1 a ha
+
+theorem place_spec (rs : List (Placed Nat)) (e i : Nat) (fs : List FieldSpec)
+    (hb : e + wt fs ≤ usizeMax) :
+    (NonOverlap e fs → place (rs, e) (pf i fs) = .ok (rs ++ specRegs e i fs, naturalEnd e fs)) ∧
+    (¬ NonOverlap e fs → ∃ m, place (rs, e) (pf i fs) = .err m) := by
+  induction fs generalizing rs e i with
+  | nil => simp [pf, place, specRegs, naturalEnd, NonOverlap]
+  | cons f fs ih =>
+    rw [wt_cons] at hb
+    rw [pf_cons]
+    unfold place
+    cases ha : f.addr with
+    | none =>
+      have hp : pushField (rs, e) (f.toPField (i + 1)) =
+          .ok (rs ++ reg f.size (some f.align) f.isArray (some (i + 1)), e + f.size) :=
+        push_ok rs e f.size _ _ _ (by omega)
+      have hfo : fieldOffset e f = e := by simp [fieldOffset, ha]
+      have ih' := ih (rs ++ reg f.size (some f.align) f.isArray (some (i + 1))) (e + f.size) (i + 1)
+        (by omega)
+      simp only [FieldSpec.toPField, ha] at hp ⊢
+      simp only [hp, NonOverlap, ha, naturalEnd, specRegs, hfo, Nat.sub_self]
+      refine ⟨fun h => ?_, fun h => ?_⟩
+      · rw [ih'.1 h.2]; simp [reg]
+      · exact ih'.2 (fun h' => h ⟨by simp, h'⟩)
+    | some a =>
+      have hfo : fieldOffset e f = a := by simp [fieldOffset, ha]
+      simp only [FieldSpec.toPField, ha]
+      by_cases hlt : a < e
+      · simp only [hlt, if_true]
+        refine ⟨fun h => ?_, fun _ => ⟨_, rfl⟩⟩
+        have := h.1 a ha
+        omega
+      · simp only [hlt, if_false]
+        have ha0 : f.addr.getD 0 = a := by simp [ha]
+        have hp1 : pushPad (rs, e) (a - e) = .ok (rs ++ reg (a - e) (some 1) true none, a) := by
+          have := push_ok rs e (a - e) (some 1) true none (by omega)
+          rw [show e + (a - e) = a by omega] at this
+          exact this
+        have hp2 : pushField (rs ++ reg (a - e) (some 1) true none, a) (f.toPField (i + 1)) =
+            .ok (rs ++ reg (a - e) (some 1) true none ++
+              reg f.size (some f.align) f.isArray (some (i + 1)), a + f.size) :=
+          push_ok _ a f.size _ _ _ (by omega)
+        simp only [FieldSpec.toPField, ha] at hp2
+        have ih' := ih (rs ++ reg (a - e) (some 1) true none ++
+              reg f.size (some f.align) f.isArray (some (i + 1))) (a + f.size) (i + 1) (by omega)
+        simp only [hp1, hp2, NonOverlap, naturalEnd, specRegs, hfo]
+        refine ⟨fun h => ?_, fun h => ?_⟩
+        · rw [ih'.1 h.2]; simp [List.append_assoc]
+        · refine ih'.2 (fun h' => h ⟨?_, h'⟩)
+          intro a' ha'
+          rw [ha] at ha'
+          cases ha'
+          omega
+
+/-- the checks of `resolve_regions`: no overlap, declared size not exceeded -/
+def Pre (ps : Nat) (t : TypeSpec) : Prop :=
+  NonOverlap (start ps t) t.fields ∧
+    ∀ ts, t.size? = some ts → naturalEnd (start ps t) t.fields ≤ ts
+
+theorem sumSizes_specAll (ps : Nat) (t : TypeSpec) (h : Pre ps t) :
+    sumSizes (specAll ps t) = totalSize ps t := by
+  have h1 := sumSizes_specRegs (start ps t) 0 t.fields h.1
+  have h3 : naturalEnd (start ps t) t.fields ≤ totalSize ps t := by
+    unfold totalSize
+    cases hs : t.size? with
+    | none => simp
+    | some ts => simpa using h.2 ts hs
+  have h2 : sumSizes (headRegs ps t) = start ps t := by
+    unfold headRegs start
+    cases t.vft <;> simp [sumSizes]
+  simp only [specAll, tailRegs, sumSizes_append, sumSizes_reg, h2]
+  omega
+
+theorem padTail_spec (ps : Nat) (t : TypeSpec) (rs : List (Placed Nat))
+    (hsm : t.size?.getD 0 ≤ usizeMax)
+    (h : ∀ ts, t.size? = some ts → naturalEnd (start ps t) t.fields ≤ ts) :
+    padTail (rs, naturalEnd (start ps t) t.fields) t.size? =
+      .ok (rs ++ tailRegs ps t, totalSize ps t) := by
+  unfold padTail tailRegs totalSize
+  cases hs : t.size? with
+  | none => simp [reg]
+  | some ts =>
+    have hle := h ts hs
+    simp only [hs, Option.getD_some] at hsm ⊢
+    by_cases c : naturalEnd (start ps t) t.fields < ts
+    · simp only [c, if_true]
+      have := push_ok rs (naturalEnd (start ps t) t.fields) (ts - naturalEnd (start ps t) t.fields)
+        (some 1) true none (by omega)
+      rw [show naturalEnd (start ps t) t.fields + (ts - naturalEnd (start ps t) t.fields) = ts by omega]
+        at this
+      exact this
+    · have : ts - naturalEnd (start ps t) t.fields = 0 := by omega
+      have e : naturalEnd (start ps t) t.fields = ts := by omega
+      simp [reg, e]
+
+/-- `resolve` after the vftable-pointer push -/
+def resolveTail (st0 : St Nat) (fields : List (PField Nat)) (target : Option Nat) :
+    Res (List (Placed Nat) × Nat) :=
+  match place st0 fields with
+  | .ok st1 =>
+    match padTail st1 target with
+    | .ok st2 =>
+      let size := sumSizes st2.1
+      match target with
+      | some t => if size ≠ t then .err "calculated size does not match target size" else .ok (st2.1, size)
+      | none => .ok (st2.1, size)
+    | .defer => .defer
+    | .err m => .err m
+    | .panic s => .panic s
+  | .defer => .defer
+  | .err m => .err m
+  | .panic s => .panic s
+
+theorem resolve_none (fields : List (PField Nat)) (target : Option Nat) :
+    resolve none fields target = resolveTail ([], 0) fields target := by
+  unfold resolve resolveTail
+  simp only []
+  cases place ([], 0) fields with
+  | ok st1 =>
+    simp only []
+    cases padTail st1 target with
+    | ok st2 => cases target <;> rfl
+    | _ => rfl
+  | _ => rfl
+
+theorem resolve_some (v : PField Nat) (st0 : St Nat) (fields : List (PField Nat)) (target : Option Nat)
+    (h : pushField ([], 0) v = .ok st0) :
+    resolve (some v) fields target = resolveTail st0 fields target := by
+  unfold resolve resolveTail
+  simp only [h]
+  cases place st0 fields with
+  | ok st1 =>
+    simp only []
+    cases padTail st1 target with
+    | ok st2 => cases target <;> rfl
+    | _ => rfl
+  | _ => rfl
+
+theorem resolve_head (ps : Nat) (t : TypeSpec) (hps : ps ≤ usizeMax) :
+    resolve (if t.vft then some (vptrField ps) else none) (pfields t) t.size? =
+      resolveTail (headRegs ps t, start ps t) (pf 0 t.fields) t.size? := by
+  rw [pfields_eq]
+  unfold headRegs start
+  cases t.vft
+  · exact resolve_none _ _
+  · refine resolve_some _ _ _ _ ?_
+    have := push_ok [] 0 ps (some ps) false (some 0) (by omega)
+    simpa [pushField, vptrField, reg] using this
+
+theorem resolve_spec (ps : Nat) (t : TypeSpec)
+    (hsm : ps + wt t.fields + t.size?.getD 0 ≤ usizeMax) :
+    (Pre ps t → resolve (if t.vft then some (vptrField ps) else none) (pfields t) t.size? =
+        .ok (specAll ps t, totalSize ps t)) ∧
+    (¬ Pre ps t → ∃ m, resolve (if t.vft then some (vptrField ps) else none) (pfields t) t.size? =
+        .err m) := by
+  have hpl := place_spec (headRegs ps t) (start ps t) 0 t.fields
+    (by unfold start; split <;> omega)
+  rw [resolve_head ps t (by omega)]
+  unfold resolveTail
+  by_cases hno : NonOverlap (start ps t) t.fields
+  · rw [hpl.1 hno]
+    simp only []
+    by_cases hsz : ∀ ts, t.size? = some ts → naturalEnd (start ps t) t.fields ≤ ts
+    · have hpre : Pre ps t := ⟨hno, hsz⟩
+      rw [padTail_spec ps t _ (by omega) hsz]
+      simp only []
+      refine ⟨fun _ => ?_, fun h => absurd hpre h⟩
+      have hsum : sumSizes (headRegs ps t ++ specRegs (start ps t) 0 t.fields ++ tailRegs ps t)
+          = totalSize ps t := by
+        rw [List.append_assoc]; exact sumSizes_specAll ps t hpre
+      rw [hsum]
+      cases hs : t.size? with
+      | none => simp [specAll]
+      | some ts => simp [specAll, totalSize, hs]
+    · refine ⟨fun h => absurd h.2 hsz, fun _ => ?_⟩
+      have hex : ∃ ts, t.size? = some ts ∧ ts < naturalEnd (start ps t) t.fields := by
+        cases hs : t.size? with
+        | none => exact absurd (by intro ts h; simp [hs] at h) hsz
+        | some ts =>
+          refine ⟨ts, rfl, ?_⟩
+          apply Classical.byContradiction
+          intro hc
+          apply hsz
+          intro ts' h'
+          rw [hs] at h'
+          cases h'
+          omega
+      obtain ⟨ts, hs, hlt⟩ := hex
+      have h2 : sumSizes (headRegs ps t) = start ps t := by
+        unfold headRegs start
+        cases t.vft <;> simp [sumSizes]
+      have hsum : sumSizes (headRegs ps t ++ specRegs (start ps t) 0 t.fields) ≠ ts := by
+        have := sumSizes_specRegs (start ps t) 0 t.fields hno
+        rw [sumSizes_append, h2]
+        omega
+      have hnlt : ¬ naturalEnd (start ps t) t.fields < ts := by omega
+      simp [hs, padTail, hnlt, hsum]
+  · obtain ⟨m, hm⟩ := hpl.2 hno
+    rw [hm]
+    exact ⟨fun h => absurd h.1 hno, fun _ => ⟨m, rfl⟩⟩
+
+/-! ## alignments of the closed form -/
+
+/-- the alignments of the domain -/
+def PA (a : Nat) : Prop := a = 1 ∨ a = 2 ∨ a = 4 ∨ a = 8 ∨ a = 16
+
+/-- every region has an alignment, and it is one of the domain's -/
+def AllP (rs : List (Placed Nat)) : Prop := ∀ r ∈ rs, ∃ a, r.align = some a ∧ PA a
+
+theorem allP_nil : AllP [] := by intro r h; cases h
+
+theorem allP_append {a b : List (Placed Nat)} (ha : AllP a) (hb : AllP b) : AllP (a ++ b) := by
+  intro r h
+  rcases List.mem_append.mp h with h | h
+  · exact ha r h
+  · exact hb r h
+
+theorem allP_reg (s a : Nat) (arr : Bool) (src : Option Nat) (h : PA a) :
+    AllP (reg s (some a) arr src) := by
+  unfold reg
+  split
+  · exact allP_nil
+  · intro r hr
+    simp only [List.mem_singleton] at hr
+    subst hr
+    exact ⟨a, rfl, h⟩
+
+theorem PA_one : PA 1 := Or.inl rfl
+
+theorem allP_specRegs (e i : Nat) (fs : List FieldSpec) (hal : ∀ f ∈ fs, PA f.align) :
+    AllP (specRegs e i fs) := by
+  induction fs generalizing e i with
+  | nil => exact allP_nil
+  | cons f fs ih =>
+    simp only [specRegs]
+    exact allP_append (allP_reg _ _ _ _ PA_one)
+      (allP_append (allP_reg _ _ _ _ (hal f (by simp)))
+        (ih _ _ (fun g hg => hal g (by simp [hg]))))
+
+theorem allP_specAll (ps : Nat) (t : TypeSpec) (hps : ps = 4 ∨ ps = 8)
+    (hal : ∀ f ∈ t.fields, PA f.align) : AllP (specAll ps t) := by
+  unfold specAll
+  refine allP_append ?_ (allP_append (allP_specRegs _ _ _ hal) (allP_reg _ _ _ _ PA_one))
+  unfold headRegs
+  split
+  · intro r hr
+    simp only [List.mem_singleton] at hr
+    subst hr
+    refine ⟨ps, rfl, ?_⟩
+    unfold PA; omega
+  · exact allP_nil
+
+/-! ## `lcmAll` -/
+
+def lcmFrom (acc : Nat) (rs : List (Placed Nat)) : Res Nat :=
+  Res.foldlM (fun acc (r : Placed Nat) => match r.align with | some a => lcmStep acc a | none => .ok acc)
+    acc rs
+
+theorem lcmAll_eq (rs : List (Placed Nat)) : lcmAll rs = lcmFrom 1 rs := rfl
+
+theorem lcmStep_spec (acc x : Nat) (ha : PA acc) (hx : PA x) :
+    ∃ m, lcmStep acc x = .ok m ∧ PA m ∧ ∀ A, m ≤ A ↔ acc ≤ A ∧ x ≤ A := by
+  refine ⟨max acc x, ?_, ?_, ?_⟩
+  · unfold PA at ha hx
+    rcases ha with rfl | rfl | rfl | rfl | rfl <;> rcases hx with rfl | rfl | rfl | rfl | rfl <;>
+      simp [lcmStep, usizeMax]
+  · unfold PA at ha hx ⊢; omega
+  · intro A; omega
+
+theorem lcmFrom_spec (acc : Nat) (rs : List (Placed Nat)) (hrs : AllP rs) (ha : PA acc) :
+    ∃ m, lcmFrom acc rs = .ok m ∧ PA m ∧
+      ∀ A, m ≤ A ↔ acc ≤ A ∧ ∀ r ∈ rs, ∀ a, r.align = some a → a ≤ A := by
+  induction rs generalizing acc with
+  | nil => exact ⟨acc, rfl, ha, by simp⟩
+  | cons r rs ih =>
+    obtain ⟨a, hra, hpa⟩ := hrs r (by simp)
+    obtain ⟨m1, h1, hp1, hm1⟩ := lcmStep_spec acc a ha hpa
+    obtain ⟨m, h2, hp2, hm2⟩ := ih m1 (fun r' hr' => hrs r' (by simp [hr'])) hp1
+    refine ⟨m, ?_, hp2, ?_⟩
+    · unfold lcmFrom Res.foldlM
+      simp only [hra, h1]
+      exact h2
+    · intro A
+      rw [hm2, hm1]
+      simp only [List.mem_cons, forall_eq_or_imp, hra, Option.some.injEq, forall_eq']
+      exact and_assoc
+
+theorem emitted_iff (f : FieldSpec) : f.emitted = true ↔ ¬ (f.size = 0 ∧ f.isArray = true) := by
+  unfold FieldSpec.emitted
+  cases f.isArray <;> simp
+
+theorem aligns_reg (s a A : Nat) (arr : Bool) (src : Option Nat) :
+    (∀ r ∈ reg s (some a) arr src, ∀ a', r.align = some a' → a' ≤ A) ↔
+      ((s = 0 ∧ arr = true) ∨ a ≤ A) := by
+  unfold reg
+  by_cases c : s = 0 ∧ arr = true
+  · simp [c]
+  · simp [c]
+
+theorem aligns_specRegs (e i A : Nat) (fs : List FieldSpec) (hA : 1 ≤ A) :
+    (∀ r ∈ specRegs e i fs, ∀ a, r.align = some a → a ≤ A) ↔
+      ∀ f ∈ fs, f.emitted = true → f.align ≤ A := by
+  induction fs generalizing e i with
+  | nil => simp [specRegs]
+  | cons f fs ih =>
+    simp only [specRegs, List.mem_append, or_imp, forall_and, aligns_reg, ih, List.mem_cons,
+      forall_eq, emitted_iff]
+    constructor
+    · rintro ⟨_, h2, h3⟩
+      exact ⟨fun hn => h2.resolve_left hn, h3⟩
+    · rintro ⟨h2, h3⟩
+      refine ⟨Or.inr hA, ?_, h3⟩
+      by_cases c : f.size = 0 ∧ f.isArray = true
+      · exact Or.inl c
+      · exact Or.inr (h2 c)
+
+theorem aligns_head (ps : Nat) (t : TypeSpec) (A : Nat) :
+    (∀ r ∈ headRegs ps t, ∀ a, r.align = some a → a ≤ A) ↔ (t.vft = true → ps ≤ A) := by
+  unfold headRegs
+  cases t.vft
+  · simp
+  · simp
+
+theorem emittedAligns_le (ps : Nat) (t : TypeSpec) (A : Nat) :
+    (∀ a ∈ emittedAligns ps t, a ≤ A) ↔
+      ((t.vft = true → ps ≤ A) ∧ ∀ f ∈ t.fields, f.emitted = true → f.align ≤ A) := by
+  have hf : (∀ a ∈ (t.fields.filter (·.emitted)).map (·.align), a ≤ A) ↔
+      ∀ f ∈ t.fields, f.emitted = true → f.align ≤ A := by
+    constructor
+    · intro h f hf he
+      exact h _ (List.mem_map.mpr ⟨f, List.mem_filter.mpr ⟨hf, he⟩, rfl⟩)
+    · intro h a ha
+      obtain ⟨f, hf, rfl⟩ := List.mem_map.mp ha
+      obtain ⟨hf1, hf2⟩ := List.mem_filter.mp hf
+      exact h f hf1 hf2
+  unfold emittedAligns
+  simp only [List.mem_append, or_imp, forall_and, hf]
+  cases t.vft
+  · simp
+  · simp
+
+theorem aligns_specAll (ps : Nat) (t : TypeSpec) (A : Nat) (hA : 1 ≤ A) :
+    (∀ r ∈ specAll ps t, ∀ a, r.align = some a → a ≤ A) ↔ ∀ a ∈ emittedAligns ps t, a ≤ A := by
+  rw [emittedAligns_le]
+  unfold specAll tailRegs
+  simp only [List.mem_append, or_imp, forall_and, aligns_reg, aligns_specRegs _ _ _ _ hA, aligns_head]
+  constructor
+  · rintro ⟨h1, h2, _⟩; exact ⟨h1, h2⟩
+  · rintro ⟨h1, h2⟩; exact ⟨h1, h2, Or.inr hA⟩
+
+theorem lcmAll_specAll (ps : Nat) (t : TypeSpec) (hps : ps = 4 ∨ ps = 8)
+    (hal : ∀ f ∈ t.fields, PA f.align) :
+    ∃ m, lcmAll (specAll ps t) = .ok m ∧
+      ∀ A, 1 ≤ A → (m ≤ A ↔ ∀ a ∈ emittedAligns ps t, a ≤ A) := by
+  obtain ⟨m, h1, _, h3⟩ := lcmFrom_spec 1 (specAll ps t) (allP_specAll ps t hps hal) PA_one
+  refine ⟨m, by rw [lcmAll_eq]; exact h1, ?_⟩
+  intro A hA
+  rw [h3, aligns_specAll ps t A hA]
+  simp [hA]
+
+/-! ## `fieldsAligned` -/
+
+theorem fieldsAligned_reg (off s a : Nat) (arr : Bool) (src : Option Nat) (rest : List (Placed Nat))
+    (ha : a ≠ 0) (hs : off + s ≤ usizeMax) :
+    ((s = 0 ∧ arr = true) ∨ off % a = 0 →
+      fieldsAligned off (reg s (some a) arr src ++ rest) = fieldsAligned (off + s) rest) ∧
+    (¬ ((s = 0 ∧ arr = true) ∨ off % a = 0) →
+      ∃ m, fieldsAligned off (reg s (some a) arr src ++ rest) = .err m) := by
+  unfold reg
+  by_cases c : s = 0 ∧ arr = true
+  · simp [c]
+  · have hs' : ¬ off + s > usizeMax := by omega
+    by_cases hm : off % a = 0
+    · simp [c, hm, fieldsAligned, ha, hs']
+    · simp [c, hm, fieldsAligned, ha]
+
+theorem fieldsAligned_specRegs (e i : Nat) (fs : List FieldSpec) (tl : List (Placed Nat))
+    (hal : ∀ f ∈ fs, PA f.align) (hno : NonOverlap e fs) (hb : e + wt fs ≤ usizeMax) :
+    (FieldsDivisible e fs →
+      fieldsAligned e (specRegs e i fs ++ tl) = fieldsAligned (naturalEnd e fs) tl) ∧
+    (¬ FieldsDivisible e fs → ∃ m, fieldsAligned e (specRegs e i fs ++ tl) = .err m) := by
+  induction fs generalizing e i with
+  | nil => simp [specRegs, naturalEnd, FieldsDivisible]
+  | cons f fs ih =>
+    have hle := nonOverlap_le e f fs hno
+    have hub := fieldOffset_le e f
+    rw [wt_cons] at hb
+    have hpa : PA f.align := hal f (by simp)
+    have hfa : f.align ≠ 0 := by unfold PA at hpa; omega
+    have ih' := ih (fieldOffset e f + f.size) (i + 1) (fun g hg => hal g (by simp [hg])) hno.2
+      (by omega)
+    simp only [specRegs, List.append_assoc, naturalEnd, FieldsDivisible]
+    have g1 := (fieldsAligned_reg e (fieldOffset e f - e) 1 true none
+      (reg f.size (some f.align) f.isArray (some (i + 1)) ++
+        (specRegs (fieldOffset e f + f.size) (i + 1) fs ++ tl)) (by decide) (by omega)).1
+      (Or.inr (Nat.mod_one e))
+    rw [g1, show e + (fieldOffset e f - e) = fieldOffset e f by omega]
+    have g2 := fieldsAligned_reg (fieldOffset e f) f.size f.align f.isArray (some (i + 1))
+      (specRegs (fieldOffset e f + f.size) (i + 1) fs ++ tl) hfa (by omega)
+    have hem : f.emitted = false ↔ (f.size = 0 ∧ f.isArray = true) := by
+      have := emitted_iff f
+      cases h : f.emitted
+      · simp only [true_iff]
+        rw [h] at this
+        apply Classical.byContradiction
+        intro hc
+        exact absurd (this.mpr hc) (by simp)
+      · rw [h] at this
+        simp only [Bool.true_eq_false, false_iff]
+        exact this.mp rfl
+    rw [hem]
+    refine ⟨fun h => ?_, fun h => ?_⟩
+    · rw [g2.1 h.1]; exact ih'.1 h.2
+    · by_cases c : (f.size = 0 ∧ f.isArray = true) ∨ fieldOffset e f % f.align = 0
+      · rw [g2.1 c]; exact ih'.2 (fun h' => h ⟨c, h'⟩)
+      · exact g2.2 c
+
+theorem fieldsAligned_specAll (ps : Nat) (t : TypeSpec) (hps : ps = 4 ∨ ps = 8)
+    (hal : ∀ f ∈ t.fields, PA f.align) (hsm : ps + wt t.fields + t.size?.getD 0 ≤ usizeMax)
+    (hpre : Pre ps t) :
+    (FieldsDivisible (start ps t) t.fields → fieldsAligned 0 (specAll ps t) = .ok ()) ∧
+    (¬ FieldsDivisible (start ps t) t.fields → ∃ m, fieldsAligned 0 (specAll ps t) = .err m) := by
+  have hst : start ps t + wt t.fields ≤ usizeMax := by unfold start; split <;> omega
+  have hhead : ∀ rest, fieldsAligned 0 (headRegs ps t ++ rest) = fieldsAligned (start ps t) rest := by
+    intro rest
+    unfold headRegs start
+    cases t.vft
+    · simp
+    · have h1 : ps ≠ 0 := by omega
+      have h2 : ¬ ps > usizeMax := by omega
+      simp [fieldsAligned, h1, h2]
+  have hts : totalSize ps t ≤ usizeMax := by
+    unfold totalSize
+    cases hs : t.size? with
+    | none =>
+      have := naturalEnd_le (start ps t) t.fields
+      simp only [Option.getD_none]
+      omega
+    | some ts => simp only [hs, Option.getD_some] at hsm ⊢; omega
+  have hne : naturalEnd (start ps t) t.fields ≤ totalSize ps t := by
+    unfold totalSize
+    cases hs : t.size? with
+    | none => simp
+    | some ts => simpa using hpre.2 ts hs
+  have htail : fieldsAligned (naturalEnd (start ps t) t.fields) (tailRegs ps t) = .ok () := by
+    have := (fieldsAligned_reg (naturalEnd (start ps t) t.fields)
+      (totalSize ps t - naturalEnd (start ps t) t.fields) 1 true none [] (by decide) (by omega)).1
+      (Or.inr (Nat.mod_one _))
+    rw [List.append_nil] at this
+    unfold tailRegs
+    rw [this]
+    rfl
+  have hmid := fieldsAligned_specRegs (start ps t) 0 t.fields (tailRegs ps t) hal hpre.1 hst
+  unfold specAll
+  rw [hhead]
+  exact ⟨fun h => by rw [hmid.1 h, htail], hmid.2⟩
+
+/-! ## the requested alignment is the declarative effective alignment -/
+
+/-- the non-padding regions -/
+def real (rs : List (Placed Nat)) : List (Option Nat) := (rs.filter (·.src.isSome)).map (·.align)
+
+theorem real_append (a b : List (Placed Nat)) : real (a ++ b) = real a ++ real b := by
+  simp [real]
+
+theorem real_reg_none (s : Nat) (al : Option Nat) (arr : Bool) : real (reg s al arr none) = [] := by
+  unfold reg real
+  split <;> simp
+
+theorem real_reg_some (s : Nat) (al : Option Nat) (arr : Bool) (j : Nat) :
+    real (reg s al arr (some j)) = if s = 0 ∧ arr = true then [] else [al] := by
+  unfold reg real
+  split <;> simp
+
+theorem length_reg (s : Nat) (al : Option Nat) (arr : Bool) (src : Option Nat) :
+    (reg s al arr src).length = if s = 0 ∧ arr = true then 0 else 1 := by
+  unfold reg
+  split <;> simp
+
+theorem real_specRegs (e i : Nat) (fs : List FieldSpec) :
+    real (specRegs e i fs) = ((fs.filter (·.emitted)).map (·.align)).map some := by
+  induction fs generalizing e i with
+  | nil => simp [specRegs, real]
+  | cons f fs ih =>
+    simp only [specRegs, real_append, real_reg_none, real_reg_some, ih, List.nil_append]
+    by_cases c : f.size = 0 ∧ f.isArray = true
+    · have : f.emitted = false := by
+        cases h : f.emitted
+        · rfl
+        · exact absurd c ((emitted_iff f).mp h)
+      simp [c, this]
+    · have : f.emitted = true := (emitted_iff f).mpr c
+      simp [c, this]
+
+theorem real_specAll (ps : Nat) (t : TypeSpec) :
+    real (specAll ps t) = (emittedAligns ps t).map some := by
+  unfold specAll tailRegs emittedAligns
+  rw [real_append, real_append, real_reg_none, real_specRegs, List.append_nil, List.map_append]
+  congr 1
+  unfold headRegs
+  cases t.vft <;> simp [real]
+
+theorem pad_specRegs (e i : Nat) (fs : List FieldSpec) :
+    ∀ r ∈ specRegs e i fs, r.src = none → r.align = some 1 := by
+  induction fs generalizing e i with
+  | nil => simp [specRegs]
+  | cons f fs ih =>
+    intro r hr hs
+    simp only [specRegs, List.mem_append] at hr
+    rcases hr with hr | hr | hr
+    · unfold reg at hr
+      split at hr
+      · cases hr
+      · simp only [List.mem_singleton] at hr; subst hr; rfl
+    · unfold reg at hr
+      split at hr
+      · cases hr
+      · simp only [List.mem_singleton] at hr; subst hr; cases hs
+    · exact ih _ _ r hr hs
+
+theorem pad_specAll (ps : Nat) (t : TypeSpec) :
+    ∀ r ∈ specAll ps t, r.src = none → r.align = some 1 := by
+  intro r hr hs
+  simp only [specAll, List.mem_append] at hr
+  rcases hr with hr | hr | hr
+  · unfold headRegs at hr
+    split at hr
+    · simp only [List.mem_singleton] at hr; subst hr; cases hs
+    · cases hr
+  · exact pad_specRegs _ _ _ r hr hs
+  · unfold tailRegs reg at hr
+    split at hr
+    · cases hr
+    · simp only [List.mem_singleton] at hr; subst hr; rfl
+
+theorem length_specRegs (e i : Nat) (fs : List FieldSpec) (hno : NonOverlap e fs) :
+    (specRegs e i fs).length = (fs.filter (·.emitted)).length + gapCount e fs := by
+  induction fs generalizing e i with
+  | nil => simp [specRegs, gapCount]
+  | cons f fs ih =>
+    have hle := nonOverlap_le e f fs hno
+    simp only [specRegs, List.length_append, length_reg, ih _ _ hno.2, gapCount, List.filter_cons]
+    have h1 : (if fieldOffset e f - e = 0 ∧ True then 0 else 1) =
+        (if e < fieldOffset e f then 1 else 0) := by
+      by_cases c : e < fieldOffset e f
+      · have : ¬ (fieldOffset e f - e = 0) := by omega
+        simp [c, this]
+      · have : fieldOffset e f - e = 0 := by omega
+        simp [c, this]
+    rw [h1]
+    by_cases c : f.size = 0 ∧ f.isArray = true
+    · have : f.emitted = false := by
+        cases h : f.emitted
+        · rfl
+        · exact absurd c ((emitted_iff f).mp h)
+      simp only [c, this, and_self, if_true, Bool.false_eq_true, if_false]
+      omega
+    · have : f.emitted = true := (emitted_iff f).mpr c
+      simp only [c, this, if_true, if_false, List.length_cons]
+      omega
+
+theorem length_specAll (ps : Nat) (t : TypeSpec) (hpre : Pre ps t) :
+    (specAll ps t).length = regionCount ps t := by
+  have hne : naturalEnd (start ps t) t.fields ≤ totalSize ps t := by
+    unfold totalSize
+    cases hs : t.size? with
+    | none => simp
+    | some ts => simpa using hpre.2 ts hs
+  have h1 : (headRegs ps t).length = if t.vft then 1 else 0 := by
+    unfold headRegs; cases t.vft <;> simp
+  have h2 : (tailRegs ps t).length =
+      if naturalEnd (start ps t) t.fields < totalSize ps t then 1 else 0 := by
+    unfold tailRegs
+    rw [length_reg]
+    by_cases c : naturalEnd (start ps t) t.fields < totalSize ps t
+    · have : ¬ (totalSize ps t - naturalEnd (start ps t) t.fields = 0) := by omega
+      simp [c, this]
+    · have : totalSize ps t - naturalEnd (start ps t) t.fields = 0 := by omega
+      simp [c, this]
+  unfold specAll regionCount
+  simp only [List.length_append, h1, h2, length_specRegs _ _ _ hpre.1]
+  omega
+
+theorem requestedAlign_none_ne_one (ps : Nat) (rs : List (Placed Nat)) (h : rs.length ≠ 1) :
+    requestedAlign ps none rs = ps := by
+  unfold requestedAlign
+  match rs, h with
+  | [], _ => rfl
+  | [_], h => exact absurd rfl h
+  | _ :: _ :: _, _ => rfl
+
+theorem requestedAlign_specAll (ps : Nat) (t : TypeSpec) (hpre : Pre ps t) :
+    requestedAlign ps t.align? (specAll ps t) = effAlign ps t := by
+  unfold effAlign
+  cases ha : t.align? with
+  | some a => rfl
+  | none =>
+    simp only []
+    have hlen := length_specAll ps t hpre
+    by_cases c : regionCount ps t = 1
+    · simp only [c, if_true]
+      have hreal := real_specAll ps t
+      have hpad := pad_specAll ps t
+      rw [c] at hlen
+      match hR : specAll ps t, hlen with
+      | [r], _ =>
+        rw [hR] at hreal hpad
+        cases hs : r.src with
+        | none =>
+          have h1 : r.align = some 1 := hpad r (by simp) hs
+          have h2 : emittedAligns ps t = [] := by
+            simpa [real, hs] using hreal.symm
+          simp [requestedAlign, h1, h2]
+        | some j =>
+          have h2 : (emittedAligns ps t).map some = [r.align] := by
+            simpa [real, hs] using hreal.symm
+          cases hE : emittedAligns ps t with
+          | nil => rw [hE] at h2; simp at h2
+          | cons a l =>
+            rw [hE] at h2
+            simp only [List.map_cons, List.cons.injEq, List.map_eq_nil_iff] at h2
+            obtain ⟨h2a, h2b⟩ := h2
+            subst h2b
+            simp [requestedAlign, ← h2a]
+    · simp only [c, if_false]
+      exact requestedAlign_none_ne_one ps _ (by rw [hlen]; exact c)
+
+/-! ## the alignment block and the verdict -/
+
+/-- the non-packed clauses of `Realisable` -/
+def AlignOK (ps : Nat) (t : TypeSpec) : Prop :=
+  FieldsDivisible (start ps t) t.fields
+    ∧ IsPow2 (effAlign ps t)
+    ∧ (∀ a ∈ emittedAligns ps t, a ≤ effAlign ps t)
+    ∧ totalSize ps t % effAlign ps t = 0
+
+theorem alignCheck_unpacked (ps : Nat) (t : TypeSpec) (hps : ps = 4 ∨ ps = 8)
+    (hal : ∀ f ∈ t.fields, PA f.align) (hsm : ps + wt t.fields + t.size?.getD 0 ≤ usizeMax)
+    (hpre : Pre ps t) :
+    (AlignOK ps t →
+      alignCheck ps false t.align? (specAll ps t) (totalSize ps t) = .ok (effAlign ps t)) ∧
+    (¬ AlignOK ps t →
+      ∃ m, alignCheck ps false t.align? (specAll ps t) (totalSize ps t) = .err m) := by
+  have hfold : ∀ (h1 : FieldsDivisible (start ps t) t.fields) (h2 : IsPow2 (effAlign ps t))
+      (h3 : ∀ a ∈ emittedAligns ps t, a ≤ effAlign ps t)
+      (h4 : totalSize ps t % effAlign ps t = 0), AlignOK ps t := fun h1 h2 h3 h4 => ⟨h1, h2, h3, h4⟩
+  have hunf : AlignOK ps t → FieldsDivisible (start ps t) t.fields ∧ IsPow2 (effAlign ps t) ∧
+      (∀ a ∈ emittedAligns ps t, a ≤ effAlign ps t) ∧ totalSize ps t % effAlign ps t = 0 := id
+  generalize AlignOK ps t = G at hfold hunf ⊢
+  unfold alignCheck
+  simp only [Bool.false_eq_true, if_false, requestedAlign_specAll ps t hpre]
+  by_cases h2 : isPow2 (effAlign ps t) = true
+  · have hpow : IsPow2 (effAlign ps t) := (isPow2_iff _).mp h2
+    have hA1 : 1 ≤ effAlign ps t := pow2_pos hpow
+    have hA0 : effAlign ps t ≠ 0 := by omega
+    obtain ⟨m, hm, hmA⟩ := lcmAll_specAll ps t hps hal
+    have hmA' := hmA _ hA1
+    have hfa := fieldsAligned_specAll ps t hps hal hsm hpre
+    simp only [h2, Bool.not_true, Bool.false_eq_true, if_false, hm]
+    by_cases hle : m ≤ effAlign ps t
+    · have hgt : ¬ m > effAlign ps t := by omega
+      simp only [hgt, if_false]
+      by_cases hfd : FieldsDivisible (start ps t) t.fields
+      · rw [hfa.1 hfd]
+        simp only [hA0, if_false]
+        by_cases hmod : totalSize ps t % effAlign ps t = 0
+        · have hG : G := hfold hfd hpow (hmA'.mp hle) hmod
+          simp only [hmod, ne_eq, not_true_eq_false, if_false]
+          exact ⟨fun _ => trivial, fun h => absurd hG h⟩
+        · have hG : ¬ G := fun h => hmod (hunf h).2.2.2
+          simp only [ne_eq, hmod, not_false_eq_true, if_true]
+          exact ⟨fun h => absurd h hG, fun _ => ⟨_, rfl⟩⟩
+      · obtain ⟨e, he⟩ := hfa.2 hfd
+        rw [he]
+        exact ⟨fun h => absurd (hunf h).1 hfd, fun _ => ⟨_, rfl⟩⟩
+    · have hgt : m > effAlign ps t := by omega
+      simp only [hgt, if_true]
+      exact ⟨fun h => absurd (hmA'.mpr (hunf h).2.2.1) hle, fun _ => ⟨_, rfl⟩⟩
+  · have h2' : isPow2 (effAlign ps t) = false := by
+      cases h : isPow2 (effAlign ps t)
+      · rfl
+      · exact absurd h h2
+    simp only [h2', Bool.not_false, if_true]
+    exact ⟨fun h => absurd ((isPow2_iff _).mpr (hunf h).2.1) h2, fun _ => ⟨_, rfl⟩⟩
+
+theorem alignCheck_packed_none (ps : Nat) (rs : List (Placed Nat)) (s : Nat) :
+    alignCheck ps true none rs s = .ok 1 := by
+  simp [alignCheck]
+
+theorem alignCheck_packed_some (ps a : Nat) (rs : List (Placed Nat)) (s : Nat) :
+    alignCheck ps true (some a) rs s = .err "cannot specify both packed and align" := by
+  simp [alignCheck]
+
+theorem realisable_iff (ps : Nat) (t : TypeSpec) :
+    Realisable ps t ↔ Pre ps t ∧ (if t.packed then t.align? = none else AlignOK ps t) := by
+  unfold Realisable Pre AlignOK
+  exact and_assoc.symm
+
+/-- the verdict in the domain: the declared (or natural) size and the effective alignment when the
+    description is realisable, an error otherwise -/
+theorem verdict_spec (ps : Nat) (t : TypeSpec) (hps : ps = 4 ∨ ps = 8)
+    (hal : ∀ f ∈ t.fields, PA f.align) (hsm : ps + wt t.fields + t.size?.getD 0 ≤ usizeMax) :
+    (Realisable ps t →
+      verdict ps t = .ok (totalSize ps t, if t.packed then 1 else effAlign ps t)) ∧
+    (¬ Realisable ps t → ∃ m, verdict ps t = .err m) := by
+  rw [realisable_iff]
+  have hres := resolve_spec ps t hsm
+  unfold verdict
+  by_cases hpre : Pre ps t
+  · rw [hres.1 hpre]
+    simp only []
+    cases hpk : t.packed with
+    | true =>
+      simp only [if_true]
+      cases ha : t.align? with
+      | none =>
+        rw [alignCheck_packed_none]
+        exact ⟨fun _ => rfl, fun h => absurd ⟨hpre, rfl⟩ h⟩
+      | some a =>
+        rw [alignCheck_packed_some]
+        refine ⟨fun h => ?_, fun _ => ⟨_, rfl⟩⟩
+        have := h.2
+        cases this
+    | false =>
+      simp only [Bool.false_eq_true, if_false]
+      have hac := alignCheck_unpacked ps t hps hal hsm hpre
+      by_cases hok : AlignOK ps t
+      · rw [hac.1 hok]
+        exact ⟨fun _ => rfl, fun h => absurd ⟨hpre, hok⟩ h⟩
+      · obtain ⟨m, hm⟩ := hac.2 hok
+        rw [hm]
+        exact ⟨fun h => absurd h.2 hok, fun _ => ⟨_, rfl⟩⟩
+  · obtain ⟨m, hm⟩ := hres.2 hpre
+    rw [hm]
+    exact ⟨fun h => absurd h.1 hpre, fun _ => ⟨_, rfl⟩⟩
+
+/-! ## the executable oracle -/
+
+theorem nonOverlapB_iff (e : Nat) (fs : List FieldSpec) : nonOverlapB e fs = true ↔ NonOverlap e fs := by
+  induction fs generalizing e with
+  | nil => simp [nonOverlapB, NonOverlap]
+  | cons f fs ih =>
+    simp only [nonOverlapB, NonOverlap, Bool.and_eq_true, ih]
+    cases f.addr <;> simp
+
+theorem fieldsDivisibleB_iff (e : Nat) (fs : List FieldSpec) :
+    fieldsDivisibleB e fs = true ↔ FieldsDivisible e fs := by
+  induction fs generalizing e with
+  | nil => simp [fieldsDivisibleB, FieldsDivisible]
+  | cons f fs ih =>
+    simp only [fieldsDivisibleB, FieldsDivisible, Bool.and_eq_true, ih, Bool.or_eq_true, beq_iff_eq]
+
+theorem realisableB_spec (ps : Nat) (t : TypeSpec) : realisableB ps t = true ↔ Realisable ps t := by
+  unfold realisableB Realisable
+  simp only [Bool.and_eq_true, nonOverlapB_iff, and_assoc]
+  refine and_congr Iff.rfl (and_congr ?_ ?_)
+  · cases t.size? <;> simp
+  · cases t.packed
+    · simp only [Bool.false_eq_true, if_false, Bool.and_eq_true, fieldsDivisibleB_iff, isPow2B,
+        isPow2_iff, List.all_eq_true, decide_eq_true_eq, beq_iff_eq, IsPow2, and_assoc]
+    · cases t.align? <;> simp
 
 end PyxisVerif.Layout
